@@ -28,7 +28,8 @@ type hostAPI struct {
 	debit, attach, detach                                      *types.Func
 	readRequest, verifyHash, signHash, contractSig, renewalSig *types.Func
 	hostKey                                                    *types.Var
-	handlers                                                   []*ir.Func // expanded views (helpers inlined; handlers and lock wrappers stay calls)
+	vsD                                                        *ir.ViewSet // the same views with deferred calls made explicit before every return
+	handlers                                                   []*ir.Func  // expanded views (helpers inlined; handlers and lock wrappers stay calls)
 	lockWrappers                                               []*ir.Func
 	vs                                                         *ir.ViewSet
 }
@@ -103,10 +104,45 @@ func getHostAPI(p *ir.Prog) *hostAPI {
 				}
 			}
 		}
+		// a referenced method that reads no request itself but refers to methods that do is a part of the
+		// dispatcher split off (an id → handler switch of its own): its references are the handlers
+		readsReq := func(f *ir.Func) bool { return len(f.CallsTo(true, h.readRequest)) > 0 }
+		methodRefs := func(f *ir.Func) []*ir.Func {
+			var out []*ir.Func
+			for _, m := range p.MethodsOf("rhp", "Server") {
+				if m != f && f.MentionsObj(f.Body, true, m.Obj) {
+					out = append(out, m)
+				}
+			}
+			return out
+		}
+		var add func(f *ir.Func, depth int)
+		add = func(f *ir.Func, depth int) {
+			if f == d || units[f.Obj] || seen[f.Obj] {
+				return
+			}
+			if !readsReq(f) && depth < 3 {
+				sub := methodRefs(f)
+				n := 0
+				for _, m := range sub {
+					if readsReq(m) {
+						n++
+					}
+				}
+				if n > 1 { // (a wrapper delegating to one shared body is a handler itself)
+					seen[f.Obj] = true
+					for _, m := range sub {
+						add(m, depth+1)
+					}
+					return
+				}
+			}
+			seen[f.Obj] = true
+			raw = append(raw, f)
+		}
 		for _, f := range p.MethodsOf("rhp", "Server") {
-			if refs[f.Obj] && f != d && !units[f.Obj] && !seen[f.Obj] {
-				seen[f.Obj] = true
-				raw = append(raw, f)
+			if refs[f.Obj] {
+				add(f, 0)
 			}
 		}
 	}
@@ -121,6 +157,7 @@ func getHostAPI(p *ir.Prog) *hostAPI {
 		units[f.Obj] = true
 	}
 	h.vs = p.Views("rhp", ir.ExpandOpt{Key: "host-handlers", Stop: func(fn *types.Func) bool { return units[fn] }})
+	h.vsD = p.Views("rhp", ir.ExpandOpt{Key: "host-handlers+defers", Stop: func(fn *types.Func) bool { return units[fn] }, Defers: true})
 	for _, f := range raw {
 		if v := h.vs.Of(f); len(v.CallsTo(false, h.readRequest)) > 0 {
 			h.handlers = append(h.handlers, v)
